@@ -21,6 +21,8 @@ def dispatch(kind, payload):
         return r_hex(model)
     if kind == "hilbert":
         return r_hilbert(model)
+    if kind == "boundary":
+        return r_boundary(model)
     return {"confirmed": False, "note": "no native replay for kind %s" % kind}
 
 
@@ -346,3 +348,50 @@ def r_hilbert(model):
                 return {"confirmed": True, "input": {"orientation": o, "level": h, "S": [seen_cells[key], S]}, "observed": "two indices give the same cell"}
             seen_cells[key] = S
     return {"confirmed": False, "note": "no failing index among %d (orientation, level, index) cases" % tried}
+
+
+# ------------------------------------------------------------------------------------------------ C12 (shape conjuncts)
+def r_boundary(model):
+    import a5
+    import copy
+    cells = []
+    for r in range(0, 4):
+        cs = a5.cell_to_children(0, r)
+        cells += cs[:: max(1, len(cs) // 14)]
+    for p, r in (((12.3, 45.6), 9), ((-170.2, -20.1), 15), ((3.0, 89.0), 29), ((100.0, 0.0), 6), ((179.99, 10.0), 7)):
+        cells.append(a5.lonlat_to_cell(p, r))
+    opts = []
+    for closed in ("omitted", True, False):
+        for seg in (1, "omitted", None, "auto", 2, 3, 5, 7, 16):
+            o = {}
+            if closed != "omitted":
+                o["closed_ring"] = closed
+            if seg != "omitted":
+                o["segments"] = seg
+            opts.append(o)
+    tried = 0
+    for sweep in range(2):
+        for c in cells:
+            r = a5.get_resolution(c)
+            n = 3 if r == 1 else 5
+            for o in (opts if sweep == 0 else list(reversed(opts))):
+                arg = copy.deepcopy(o)
+                tried += 1
+                try:
+                    ring = a5.cell_to_boundary(c, arg if arg or sweep else None)
+                except Exception as e:
+                    return {"confirmed": True, "input": [hex(c), o], "observed": "raised %s: %s" % (type(e).__name__, e)}
+                seg = o.get("segments", "auto")
+                if seg in ("auto", None):
+                    seg = max(1, int(2 ** (6 - r))) if r <= 6 else 1
+                closed = o.get("closed_ring", True)
+                want = n * seg + (1 if closed else 0)
+                if len(ring) != want:
+                    return {"confirmed": True, "input": [hex(c), o], "observed": "%d vertices" % len(ring), "expected": want, "calls_tried": tried}
+                if closed and ring[0] != ring[-1]:
+                    return {"confirmed": True, "input": [hex(c), o], "observed": "ring not closed"}
+                if arg != o:
+                    return {"confirmed": True, "input": [hex(c), o], "observed": "options modified to %r" % (arg,)}
+    if a5.cell_to_boundary(0) != []:
+        return {"confirmed": True, "input": "world cell", "observed": a5.cell_to_boundary(0)}
+    return {"confirmed": False, "note": "no shape violation among %d cell_to_boundary calls" % tried}
